@@ -86,6 +86,11 @@ CHECKS = {
             "Exhaustive over byte offsets and tag/title bytes for small-parameter instances of all 14 types (thorough: also every offset of the 33 KB key sets and five more generated instances).",
             "The accepted behaviour is process termination, so each fault runs in its own child; NULL-dereference on a missing text section is the documented outcome and is accepted (address checked).",
             "DESIGN.md §3 C18"),
+    "C07": ("exploration", "E5+E1",
+            "seeded sample sets of exact errors (fresh LWE/TLWE/TGSW/gate ciphertexts, every key-switching and bootstrapping key row) tested at 8 estimator standard deviations against the implemented discretised Gaussian law; chi-square / correlation tests of masks; rapidcheck metamorphic seeding property over generated histories",
+            "Statistical decision with two-sided 8-sigma regions (lower bound included: zero or halved noise fails) for every noise level 2^-5..2^-30 and both default key sets; generated re-seeding histories for the randomness-source clause.",
+            "Acceptance regions are centred on the sampler law actually implemented (truncation toward zero), computed numerically by the driver; a false alarm has probability < 1e-14 per statistic.",
+            "DESIGN.md §3 C07"),
 }
 
 ALL = ["C%02d" % k for k in range(1, 21)]
